@@ -571,10 +571,11 @@ from spec import script as _sps, bip32 as _b32
 _KeyRec = RecordOf(_Key, public_byte=Bytes(33), compressed=Const(True), is_private=Const(False), _hash160=Const(None))
 
 
-def _scripts_case(script_type, witness_type, nkeys):
-    name = 'scripts-%s-%s-%dkeys' % (script_type, witness_type, nkeys)
+def _scripts_case(script_type, witness_type, nkeys, prior_lock=False):
+    name = 'scripts-%s-%s-%dkeys%s' % (script_type, witness_type, nkeys, '-priorlock' if prior_lock else '')
+    # prior_lock: the caller supplied a locking script (e.g. the scriptPubKey of the spent output, as add_input(locking_script=...) allows): ANY bytes
     InT = RecordOf(Input, script_type=Const(script_type), witness_type=Const(witness_type), keys=FixedList(_KeyRec, nkeys), signatures=Const([]),
-                   public_hash=Const(b''), locking_script=Const(b''), unlocking_script=Const(b''), redeemscript=Const(b''), witnesses=Const([]),
+                   public_hash=Const(b''), locking_script=Bytes(max=100) if prior_lock else Const(b''), unlocking_script=Const(b''), redeemscript=Const(b''), witnesses=Const([]),
                    sigs_required=Int(1, nkeys), strict=Const(True), address=Const('(address is the subject of C04)'), network=Const(None), encoding=Const(None), compressed=Const(True),
                    script=Const(None), locktime_cltv=Const(None), locktime_csv=Const(None))
 
@@ -606,6 +607,7 @@ def _scripts_case(script_type, witness_type, nkeys):
 
 
 SCRIPT_CODE_CASES = ([_scripts_case('sig_pubkey', w, 1)._contract.key for w in ('legacy', 'segwit', 'p2sh-segwit')]
+                     + [_scripts_case('sig_pubkey', w, 1, prior_lock=True)._contract.key for w in ('legacy', 'segwit', 'p2sh-segwit')]
                      + [_scripts_case('p2sh_multisig', w, n)._contract.key for w in ('legacy', 'segwit', 'p2sh-segwit') for n in (2, 3)])
 
 
